@@ -65,10 +65,127 @@ def check_samplers(run, E):
         yield ck
 
 
+def _self_rdms(E):
+    """a symbolic RDMs object whose rdm_descriptors hold two generic columns ('index' and 'k'); the body of subsample /
+    extract_dict treats every key alike (the key only selects the column), so 'k' stands for any descriptor name"""
+    from vf.pyvc.values import DictV
+    desc = E.sym_list('desc', etag='scalar')
+    idx = E.sym_list('index', etag='scalar')
+    fields = dict(rdm_descriptors=DictV({'index': idx, 'k': desc}), dissimilarities=E.sym_val('diss', tag='ndarray'),
+                  descriptors=E.sym_val('descriptors'), pattern_descriptors=E.sym_val('pdesc'),
+                  dissimilarity_measure=E.sym_val('measure', tag='scalar'), n_rdm=SV(desc.length, 'int'))
+    return Obj(z3.Const('self', V), 'RDMs', fields=fields), desc, idx
+
+
+def check_subsample(run, E):
+    """RDMs.subsample(by, value): the real nested loops are summarised as a concatenation of filters.  For ALL descriptor
+    columns and ALL value lists.  Property level: every sampled RDM carries a drawn value; every RDM of a drawn group is
+    present; dissimilarity rows and EVERY rdm descriptor are gathered by the same index sequence; all other fields are the
+    source's.  Structural (the order is not part of the property, so these are `structure` obligations): one block per drawn
+    value in draw order, block i holding the RDMs with descriptor value[i] each once in source order -- together with the
+    property-level clauses this gives the exact multiplicity (each RDM once per draw of its group, groups kept together)."""
+    E.inline.add('rsatoolbox.util.data_utils.extract_dict')
+    for case in ('list', 'scalar'):
+        ck = FuncCheck(E, run, 'C09', 'rsatoolbox.rdm.rdms.RDMs.subsample', f'value={case}')
+        hold = {}
+
+        def mk(E, case=case):
+            self_, desc, idx = _self_rdms(E)
+            value = E.sym_list('value', etag='scalar') if case == 'list' else E.sym_val('value', tag='scalar')
+            hold.update(desc=desc, idx=idx, value=value)
+            return [self_, 'k', value], {}, [idx.length == desc.length]
+
+        def post(ck, E, args, kw, p, case=case):
+            self_, _, value = args
+            desc, idx = hold['desc'], hold['idx']
+            n = desc.length
+            res = p.value
+            d = res.fields.get('dissimilarities') if isinstance(res, Obj) else None
+            ok = (isinstance(d, SV) and d.app is not None and d.app[0] == 'getitem' and d.app[1][0] is self_.fields['dissimilarities']
+                  and isinstance(d.app[1][1], tuple) and len(d.app[1][1]) == 2 and isinstance(d.app[1][1][0], SeqV)
+                  and d.app[1][1][1] == slice(None, None, None))
+            ck.ensure('post/dissimilarities-are-rows-of-the-source-selected-by-an-index-sequence', z3.BoolVal(bool(ok)), structure=True,
+                      note=f'dissimilarities: {d!r}')
+            if not ok:
+                return
+            sel = d.app[1][1][0]
+            L = sel.zlen()
+            t = z3.Int(fresh_name('t'))
+            in_t = z3.And(t >= 0, t < L)
+            st = E.as_int(E.seq_elem(sel, t))
+            dt = E.toV(E.seq_elem(desc, st))
+            ck.ensure('post/every-index-is-a-source-rdm', z3.Implies(in_t, z3.And(st >= 0, st < n)))
+            if case == 'scalar':
+                vz = E.toV(value)
+                ck.ensure('post/every-sampled-rdm-carries-the-requested-value', z3.Implies(in_t, dt == vz))
+                j = z3.Int(fresh_name('j'))
+                pj = sel.inv(j) if sel.inv is not None else None
+                ck.ensure('post/every-rdm-with-the-requested-value-is-present', z3.BoolVal(False) if pj is None else z3.Implies(
+                    z3.And(j >= 0, j < n, E.toV(E.seq_elem(desc, j)) == vz),
+                    z3.And(pj >= 0, pj < L, E.as_int(E.seq_elem(sel, pj)) == j)))
+                t2 = z3.Int(fresh_name('t'))
+                s2 = E.as_int(E.seq_elem(sel, t2))
+                ck.ensure('post/each-once-in-source-order', z3.Implies(z3.And(in_t, t2 > t, t2 < L), s2 > st))
+            else:
+                bl = getattr(sel, 'blocks', None)
+                ck.ensure('post/sample-is-one-block-per-drawn-value', z3.BoolVal(bl is not None), structure=True)
+                if bl is None:
+                    return
+                m = value.length
+                ck.ensure('post/one-block-per-draw', bl['n'] == z3.If(m > 0, m, 0), structure=True)
+                # soundness: position t lies in some block q and carries value[q]
+                q = z3.Int(fresh_name('q'))
+                oq = bl['off'](q)
+                lq = bl['blen'](q)
+                in_block = z3.And(in_t, q >= 0, q < m, oq <= t, t < oq + lq)
+                ck.ensure('post/every-position-lies-in-a-block', z3.Implies(in_t, z3.Exists([q], in_block)), structure=True)
+                ck.ensure('post/every-sampled-rdm-carries-the-value-drawn-for-its-block',
+                          z3.Implies(in_block, dt == E.toV(E.seq_elem(value, q))))
+                # completeness: every RDM j of the group drawn at position i of `value` sits in block i
+                i_, j = z3.Int(fresh_name('i')), z3.Int(fresh_name('j'))
+                blocks_i = bl['block'](i_)
+                oi = bl['off'](i_)
+                goal = []
+                for g, b in blocks_i:
+                    pj = b.inv(j) if b.inv is not None else None
+                    if pj is None:
+                        goal.append(z3.BoolVal(False))
+                        continue
+                    pos = oi + pj
+                    goal.append(z3.Implies(g, z3.And(pj >= 0, pj < b.zlen(), pos < L,
+                                                     E.as_int(E.seq_elem(sel, pos)) == j)))
+                ck.ensure('post/every-rdm-of-a-drawn-group-is-in-the-block-of-that-draw',
+                          z3.Implies(z3.And(i_ >= 0, i_ < m, j >= 0, j < n,
+                                            E.toV(E.seq_elem(desc, j)) == E.toV(E.seq_elem(value, i_))), z3.And(goal)))
+                # blocks follow the draw order and members keep the source order, each once
+                t2 = z3.Int(fresh_name('t'))
+                s2 = E.as_int(E.seq_elem(sel, t2))
+                ck.ensure('post/within-a-block-each-rdm-once-in-source-order',
+                          z3.Implies(z3.And(in_block, t2 > t, t2 < oq + lq), s2 > st), structure=True)
+                q2 = z3.Int(fresh_name('q'))
+                ck.ensure('post/blocks-follow-the-draw-order',
+                          z3.Implies(z3.And(q >= 0, q < q2, q2 < m), bl['off'](q) + bl['blen'](q) <= bl['off'](q2)), structure=True)
+            # every rdm descriptor is gathered by the SAME index sequence
+            rd = res.fields.get('rdm_descriptors')
+            from vf.pyvc.values import DictV
+            okd = isinstance(rd, DictV) and set(rd.d) == {'index', 'k'}
+            ck.ensure('post/all-descriptor-keys-are-kept', z3.BoolVal(bool(okd)))
+            if okd:
+                for key, src in (('index', idx), ('k', desc)):
+                    col = rd.d[key]
+                    ck.ensure(f'post/descriptor-{key}-has-one-entry-per-sampled-rdm', E.as_int(E.seq_len(col)) == L)
+                    ck.ensure(f'post/descriptor-{key}-is-gathered-by-the-same-indices',
+                              z3.Implies(in_t, E.veq(E.seq_elem(E.as_seq(col), t), E.seq_elem(src, st))))
+            for f in ('descriptors', 'pattern_descriptors', 'dissimilarity_measure'):
+                ck.ensure_eq(f'post/{f}-are-the-sources', res.fields.get(f), self_.fields[f])
+        ck.execute(mk, post=post, allow_raise=lambda *a: None)
+        yield ck
+
+
 def run(run):
     E = new_engine(run)
     fails = []
-    for gen in (check_samplers,):
+    for gen in (check_samplers, check_subsample):
         for ck in gen(run, E):
             fails += ck.failed
     finish_engine(E, run)
